@@ -139,6 +139,24 @@ def check_default_with_positional(decl):
             out.append(('default_command', kind,
                         f"argv [{w!r}] ({kind}, not a command) not parsed as default command {cmds[0]} "
                         f"with items=[{w!r}] ({err or vars(ns)}) for {decl_str(decl)}"))
+    # the decision rests on the FIRST argument only: a later argument spelled like a command
+    # (or like an internal option set) is data of the default command
+    try:
+        with quiet():
+            parser.get_cmd_parser(cmds[0]).add_argument('--val')
+    except BaseException:      # noqa
+        return out
+    for w in [d[0] for d in decl] + ['word']:
+        for argv, want_val, want_items in (([ '--val', w], w, []), (['-v', w], None, [w]),
+                                            (['--val', 'x', w, '-v'], 'x', [w])):
+            ns, err = try_parse(parser, argv)
+            if ns is None or ns.command != cmds[0] or ns.val != want_val or ns.items != want_items:
+                kind = 'later-arg-internal-name' if any(d[0] == w and d[2] for d in decl) else \
+                    ('later-arg-command-name' if w != 'word' else 'later-arg-plain-word')
+                out.append(('default_command', kind,
+                            f"argv {argv} (first argument is not a command name) not parsed as default command "
+                            f"{cmds[0]} with val={want_val!r}, items={want_items} ({err or vars(ns)}) "
+                            f"for {decl_str(decl)}"))
     return out
 
 
